@@ -130,6 +130,7 @@ def run(c):
         try:
             add_tricky_links(t, rng)
             paths = request_paths(t, rng)
+            rng.shuffle(paths)   # no request order is privileged (process-wide state built by earlier requests must not matter)
             raws = [("GET %s HTTP/1.1\r\nHost: localhost\r\n\r\n" % p).encode("utf-8") for p in paths]
             res_by_entry = {}
             for entry in ("process", "legacy"):
@@ -181,6 +182,7 @@ def run(c):
             if srv:
                 srv.cleanup()
             t.cleanup()
+    live_tree(c, rng.fork("live"), ext_types)
     # metamorphic media type: the same extension got the same type everywhere
     for ext, types in ext_types.items():
         if len(types) > 1:
@@ -188,8 +190,95 @@ def run(c):
     c.extra["extensions_observed"] = len(ext_types)
 
 
-def judge(c, t, p, branch, sel, amb, res, entry, ext_types):
+def live_tree(c, rng, ext_types):
+    """One long-lived server while the owner edits the served directory: every answer must reflect the tree as it is at
+    the time of the request (the lookup and the bytes are those of the file on disk now - not of an earlier version, an
+    earlier existence test or an earlier file of the same name)."""
+    c.need("live tree: answers checked after an edit of the served directory")
+    for variant in range(2 if c.quick else 12):
+        t = treegen.generate(rng.fork("t", variant), depth=1, tag="c02-live-%d" % variant, root_index=(variant % 2 == 0), root_404=(variant % 2 == 0))
+        srv = None
+        try:
+            srv = server.Server(t.root, threads=(1 if variant % 2 else 4))
+            if not srv.started:
+                c.inconc("server did not start")
+                continue
+            regular = sorted(k for k in t.files if os.path.dirname(k) in ("", "/") or k.count("/") == 1)[:3] + sorted(t.files)[-2:]
+            hot = ["/index.html", "/404.html", "/style.css", "/script.js", "/favicon.svg"] + regular
+            sub = sorted(t.dirs)[0] if t.dirs else None
+            if sub:
+                hot += [sub + "/index.html", sub + "/live.html"]
+            version = 0
+            steps = 40 if c.quick else 150
+            for step in range(steps):
+                # --- one edit of the tree
+                p = rng.choice(hot)
+                ap = t.abs(p)
+                kind = rng.choice(["rewrite-same-length", "rewrite-same-length", "rewrite-same-length-same-mtime", "rewrite-other-length", "delete", "create", "touch"])
+                exists = os.path.isfile(ap) and not os.path.islink(ap)
+                version += 1
+                if not exists and kind != "create":
+                    kind = "create"
+                try:
+                    if kind.startswith("rewrite") and exists:
+                        old = open(ap, "rb").read()
+                        n = len(old) if "same-length" in kind else max(1, len(old) + rng.choice([-7, 1, 13, 4096]))
+                        st = os.stat(ap)
+                        data = (("<!-- v%d %s -->" % (version, p)).encode() + rng.bytes(n))[:n]
+                        if data == old:
+                            data = bytes((b + 1) % 256 for b in old)
+                        with open(ap, "wb") as f:
+                            f.write(data)
+                        if kind.endswith("same-mtime"):
+                            os.utime(ap, ns=(st.st_atime_ns, st.st_mtime_ns))
+                        t.files[p] = data
+                    elif kind == "delete" and exists:
+                        os.unlink(ap)
+                        t.files.pop(p, None)
+                    elif kind == "create" and not os.path.lexists(ap) and os.path.isdir(os.path.dirname(ap)):
+                        data = ("<!-- created v%d %s -->\n" % (version, p)).encode() + rng.bytes(rng.choice([0, 20, 300]))
+                        with open(ap, "wb") as f:
+                            f.write(data)
+                        t.files[p] = data
+                    elif kind == "touch" and exists:
+                        os.utime(ap, None)
+                    else:
+                        kind = "none"
+                except OSError:
+                    kind = "none"
+                c.count("live_edit_" + kind)
+                # --- the requests that could be affected, plus bystanders
+                stem = p[:-5] if p.endswith(".html") else p
+                paths = [p, stem, os.path.dirname(p) or "/", (os.path.dirname(p) or "") + "/", "/", "/no-such-%d.txt" % step, "/no/such/dir/", rng.choice(hot), rng.choice(sorted(t.files) or ["/"])]
+                for q in dict.fromkeys(paths):
+                    raw = ("GET %s HTTP/1.1\r\nHost: localhost\r\n\r\n" % q).encode("utf-8")
+                    rs, srv2 = fetch.binary(srv, [raw], threads=None)
+                    res = rs[0]
+                    if not srv.alive():
+                        c.violation("C02:no-response:crash:live-tree", "the server process ended on %r after a %s of %s" % (q, kind, p), {"path": q, "edit": kind, "edited": p})
+                        raise StopIteration
+                    branch, sel = models.lookup(t.root, q)
+                    if q in BUILTIN and sel is None:
+                        # '/', /style.css ... without a file of that name: the built-in page, not judged here
+                        c.count("live_builtin_pages_not_judged")
+                        continue
+                    amb = ambiguous_pair(t, q)
+                    c.ev()
+                    judge(c, t, q, branch, sel, amb, res, "binary", ext_types, live=(kind, p))
+                    c.seen("live tree: answers checked after an edit of the served directory")
+                    c.cls("live", kind, branch, "edited" if q in (p, stem) else "bystander")
+        except StopIteration:
+            pass
+        finally:
+            if srv:
+                srv.cleanup()
+            t.cleanup()
+
+
+def judge(c, t, p, branch, sel, amb, res, entry, ext_types, live=None):
     rp = {"path": p, "entry": entry, "lookup_branch": branch, "selected": sel, "tree": t.spec(), "request_b64": fetch.b64(res.raw_request), "response_head": res.response[:300].decode("latin-1")}
+    if live:
+        rp["after_edit"] = {"kind": live[0], "edited": live[1]}
     qf = ("q" if "?" in p else "") + ("f" if "#" in p else "")
     bare = p.split("?", 1)[0].split("#", 1)[0]
     is_link = os.path.islink(t.abs(bare.rstrip("/"))) if bare.rstrip("/") else False
